@@ -59,7 +59,8 @@ func (c *checkSchema) checkType(name string, typ ischema.Type, ss map[string]isc
 				// lexemes point into: the error position is already right.
 				panic(jErr)
 			}
-			if typ.RootFile == nil || typ.Begin != 0 || jErr.Filename() == "" || jErr.Filename() == typ.RootFile.Name() {
+			// (Several files may carry one name: it is the file that counts.)
+			if typ.RootFile == nil || typ.Begin != 0 || jErr.File() == nil || jErr.File() == typ.RootFile {
 				jErr.SetFile(typ.RootFile)
 				jErr.SetIndex(bytes.Index(jErr.Index()) + typ.Begin)
 			}
